@@ -106,27 +106,22 @@ def judge (toks : List String) (ans : String) : Verdict :=
       match res with
       | none => Verdict.fail ("does-not-return:" ++ clip ("_".intercalate toks ++ "=>" ++ ans))
       | some (pts, err) =>
-        -- also noted (not a clause of the property text, hence not in `holdsOn`): an accepted
-        -- point whose `Fields()` returns an error
-        if holdsOn o && !(res0.map fun r => r.1.all (·.2)).getD true then
-          Verdict.fail ("accepted-point-fields-unreadable:" ++ clip ("_".intercalate toks))
-            ["pp:fields-unreadable"]
-        else
+        -- also noted, as a tag only (not a clause of the property text, hence neither in `holdsOn`
+        -- nor a failure): an accepted point whose `Fields()` returns an error
+        let unreadable := !(res0.map fun r => r.1.all (·.2)).getD true
         let tg := ["pp:points=" ++ toString (min pts.length 3), if err.isSome then "pp:error" else "pp:noerror",
-                   "lines=" ++ toString (min (candidateLines buf).length 4)]
+                   "lines=" ++ toString (min (candidateLines buf).length 4)] ++
+                  (if unreadable then ["pp:fields-unreadable"] else [])
         if holdsOn o then { ok := true, nontrivial := !(candidateLines buf).isEmpty, tags := tg }
         else if !pts.all (wellFormed dt) then
           Verdict.fail ("malformed-point-accepted:" ++ clip ("_".intercalate toks)) tg
         else Verdict.fail ("error-does-not-name-rejected-lines:" ++ clip ("_".intercalate toks)) tg
 
-/-- all ops of the case; a failure that is not the "also noted" kind is reported first, so that
-    it cannot hide behind a known finding of the same case -/
+/-- all ops of the case -/
 def oracle (obs : List (List String × String)) : Verdict :=
   let vs := obs.map fun (toks, ans) => judge toks ans
   let all := vs.foldl Verdict.and (Verdict.pass false)
-  match vs.find? (fun v => !v.ok && !v.reason.startsWith "accepted-point-fields-unreadable") with
-  | some v => { all with reason := v.reason }
-  | none => all
+  all
 
 def driver : Driver Unit := { init := (), step := step, oracle := oracle }
 
